@@ -2044,3 +2044,30 @@ def r9(cx):
     cx.site('apply_result: %d exit_status() calls, %d writes of env.exit_status' % (len(calls), len(w)))
     if not calls or not w or not any(ab.dominates(c, blk) for c, _ in calls for blk, j, s in w):
         cx.violation(ab.fn, 'apply-result', 'Env::apply_result no longer stores Divert::exit_status() into $?', loc=ab.loc(ab.d))
+
+
+@RS.rule('C02.R1b', 'K-SIBLING', 'PATH search: a candidate is accepted only if it is a regular file with an execute permission (a directory '
+         'named like the command in an earlier $PATH entry is skipped, so the later entry is found)')
+def r1b(cx):
+    from rules.C19 import executable_file_evidence, IS_EXEC
+    F = cx.F
+    ev = executable_file_evidence(F, cx)
+    for sysname, (regular, perm) in sorted(ev.items()):
+        short = sysname.split('::')[-1]
+        root = '<%s as %s>::is_executable_file' % (sysname, IS_EXEC)
+        cx.site('%s::is_executable_file: regular-file test %s, execute-permission test %s' % (short, regular, perm))
+        b0 = F.logical(root)[0]
+        if not regular:
+            cx.violation(root, 'accepts-non-regular', 'with `PATH=/a:/b`, a directory /a/foo and an executable /b/foo, the command `foo` '
+                         'must run /b/foo; %s::is_executable_file accepts the directory, the search stops at /a/foo and the command '
+                         'fails with 126' % short, loc=b0.loc(b0.d))
+        if not perm:
+            cx.violation(root, 'accepts-non-executable', '%s::is_executable_file accepts files without execute permission' % short,
+                         loc=b0.loc(b0.d))
+    # the search itself asks that question for every candidate
+    users = [(b, blk, t) for b, blk, t in F.callers_of(lambda names, t: any(n.endswith('IsExecutableFile::is_executable_file') for n in names))
+             if 'command::search' in b.fn]
+    cx.site('command search consults is_executable_file at %s' % sorted({b.loc(t) for b, _, t in users}))
+    if not users:
+        cx.violation('yash_env::semantics::command::search', 'search-without-test', 'the PATH search no longer tests candidates with '
+                     'is_executable_file', loc='yash-env/src/semantics/command/search.rs')
